@@ -30,7 +30,7 @@ func init() { register(c17{}) }
 func (c17) Meta() core.Meta {
 	return core.Meta{
 		ID: "C17", Level: "exploration",
-		Rule:        "plain build, case i = f(seed,i): purity monitor - a generated Map (JSON/XML shape, attribute and text entries, lists of maps that carry the sub-key fields) and MapSeq; every read-only method (ValuesFor*/ValueFor*/PathsFor*/PathForKeyShortest/Leaf*/Exists/Elements/Attributes/Root with plain, wildcard and indexed paths and sub-keys; Xml/XmlIndent/XmlWriter/Json/JsonIndent/JsonWriter/Gob/Copy/StringIndent/Struct/NewMap/AnyXml/j2x.MapToJson/x2j.MapToXml/Maps.XmlString; MapSeq.Xml/XmlIndent/StringIndent) is called and the receiver's fingerprint compared before/after; Copy: every container of the copy is mutated in place, the original must not change and no map or slice pointer may be shared. -race build, case i = one round: G in {2,4,8,16,32} goroutines (GOMAXPROCS in {2,4,16}) are released by a barrier and run a seeded mix of decode (NewMapXml / NewMapXmlReader over plain io.Readers / NewMapXmlSeq / NewMapJson / NewMapJsonReader), encode and query operations over ONE shared read-only Map, one shared MapSeq and private Maps (private UpdateValuesForPath / SetValueForPath / NewMap); every operation's result fingerprint must equal the result computed sequentially beforehand; any WARNING: DATA RACE block (deduplicated by the innermost mxj frame pair), any fatal 'concurrent map' error and any result mismatch is a violation. Overlap evidence: start/end ticks of every operation from one atomic counter; the distinct overlapping (opA, opB) kind pairs are counted and must reach a floor. Non-trivial: purity case with a list-valued entry / a round with >=2 goroutines; distinct by hash(map) / hash(round).",
+		Rule:        "plain build, case i = f(seed,i): purity monitor - a generated Map (JSON/XML shape, attribute and text entries, lists of maps that carry the sub-key fields) and MapSeq (as decoded, and with float64 / json.Number sequence numbers after a JSON round trip); every read-only method (ValuesFor*/ValueFor*/PathsFor*/PathForKeyShortest/Leaf*/Exists/Elements/Attributes/Root with plain, wildcard and indexed paths and sub-keys; Xml/XmlIndent/XmlWriter/Json/JsonIndent/JsonWriter/Gob/Copy/StringIndent/Struct/NewMap/AnyXml/j2x.MapToJson/x2j.MapToXml/Maps.XmlString; MapSeq.Xml/XmlIndent/StringIndent) is called and the receiver's fingerprint compared before/after; Copy: every container of the copy is mutated in place, the original must not change and no map or slice pointer may be shared. -race build, case i = one round: G in {2,4,8,16,32} goroutines (GOMAXPROCS in {2,4,16}) are released by a barrier and run a seeded mix of decode (NewMapXml / NewMapXmlReader over plain io.Readers / NewMapXmlSeq / NewMapJson / NewMapJsonReader), encode and query operations over ONE shared read-only Map, one shared MapSeq and private Maps (private UpdateValuesForPath / SetValueForPath / NewMap; private Maps of 120..30000 rows whose encodings cross 4 KiB / 64 KiB / 1 MiB); every operation's result fingerprint must equal the result computed sequentially beforehand; any WARNING: DATA RACE block (deduplicated by the innermost mxj frame pair), any fatal 'concurrent map' error and any result mismatch is a violation. Overlap evidence: start/end ticks of every operation from one atomic counter; the distinct overlapping (opA, opB) kind pairs are counted and must reach a floor. Non-trivial: purity case with a list-valued entry / a round with >=2 goroutines; distinct by hash(map) / hash(round).",
 		Assumptions: []string{"the Go race detector reports happens-before races on the executions that occurred, not on all schedules", "package options are not changed while goroutines run (the property excludes it)"},
 		Anchors:     []string{"Map.Copy", "Map.ValuesForPath", "valuesForKeyPath", "hasKey", "Map.LeafNodes", "Map.Xml", "marshalMapToXmlIndent", "MapSeq.Xml", "Map.Json", "Map.Gob", "Map.StringIndent", "Map.Struct", "Map.NewMap", "Map.Elements", "Map.Attributes", "Map.Root"},
 		Floors:      map[string]int64{"purity:method-calls": 100000, "purity:indexed-path-with-subkeys": 1000, "copy:mutations": 5000, "conc:ops": 20000, "conc:rounds": 20},
@@ -318,7 +318,25 @@ func c17purity(c *core.Ctx) {
 	}
 	// ---- MapSeq ----
 	doc := xt.Render(r, c04gen.Gen(r, 1+r.Intn(3)), xt.Style{NoWS: true})
-	if ms, err := mxj.NewMapXmlSeq(doc); err == nil {
+	ms0, err0 := mxj.NewMapXmlSeq(doc)
+	for variant := 0; variant < 3 && err0 == nil; variant++ {
+		// the same MapSeq as decoded (int sequence numbers), after a JSON round trip (float64) and after a JSON round trip
+		// with JsonUseNumber (json.Number)
+		ms := ms0
+		if variant > 0 {
+			jb, e := mxj.Map(ms0).Json()
+			if e != nil {
+				break
+			}
+			mxj.JsonUseNumber = variant == 2
+			mj, e := mxj.NewMapJson(jb)
+			mxj.JsonUseNumber = false
+			if e != nil {
+				break
+			}
+			ms = mxj.MapSeq(mj)
+			c.Count("purity:mapseq-through-json")
+		}
 		b0 := jv.Fp(ms)
 		for _, o := range []op{
 			{"MapSeq.Xml", func() { ms.Xml(); ms.Xml("r") }},
@@ -395,8 +413,44 @@ func c17round(c *core.Ctx) {
 		jsonDocs[i], _ = json.Marshal(c17map(r))
 	}
 	pool := []string{"doc", "a", "b", "c", "k", "id", "items", "entry"}
-	mkOp := func() c17op {
-		switch r.Intn(24) {
+	// large private Maps: encodings beyond 4 KiB / 64 KiB (and in 1/8 of the rounds 1 MiB) cross the buffer-growth and
+	// size-hint thresholds of the encoders; each goroutine encodes its own copy
+	bigN, bigBudget := []int{100, 1500, 1500, 2500}[r.Intn(4)], 24
+	if c.Index%8 == 3 {
+		bigN, bigBudget = 22000, 4
+	}
+	mkBig := func() mxj.Map {
+		l := make([]interface{}, bigN)
+		for i := range l {
+			l[i] = map[string]interface{}{"id": float64(i), "-n": "v", "t": "some text <&> here"}
+		}
+		return mxj.Map{"big": map[string]interface{}{"row": l}}
+	}
+	c.Max("max:private-map-rows", int64(bigN))
+	var mkOp func() c17op
+	mkOp = func() c17op {
+		x := r.Intn(26)
+		if x >= 24 {
+			if bigBudget <= 0 {
+				x = r.Intn(24)
+			}
+			bigBudget--
+		}
+		switch x {
+		case 24:
+			return c17op{"p:large-private-Json", func() string {
+				m := mkBig()
+				b, e := m.Json()
+				b2, e2 := m.JsonIndent("", " ")
+				return fmt.Sprint(len(b), len(b2), core.HashStr(string(b)), e, e2)
+			}}
+		case 25:
+			return c17op{"p:large-private-Xml-Copy", func() string {
+				m := mkBig()
+				b, e := m.Xml()
+				cp, e2 := m.Copy()
+				return fmt.Sprint(len(b), core.HashStr(string(b)), e, len(cp), e2)
+			}}
 		case 23:
 			p := []string{"sec.item", "sec.*", "sec.id"}[r.Intn(3)]
 			return c17op{"q:ValuesForPath(collecting)", func() string { return fpVals(shared.ValuesForPath(p)) }}
